@@ -204,8 +204,8 @@ func propC10(w *World, r *Run) {
 }
 
 func propC11(w *World, r *Run) {
-	r.expl = "Round-trip equality of runtime values is not a static target. Decides only: writer (cmd/feedbastion bastionClient.Update, Proof.Marshal) and reader (bastion.parseBody, Proof.Unmarshal) use the same base64 encoding object, the same line terminator, and the writer's size line carries the prefix the reader requires (CODEC-AGREEMENT); every error return of parseBody hands back nothing else, no nil-error return happens before the blank separator was consumed, Unmarshal assigns its receiver only on success (REFUSAL-IS-TOTAL); protocol integers reachable from the endpoint are parsed by a whole-string parser, the fmt.Sscan family is disallowed (STRICT-INTEGER); proof elements are appended one per decoded line in read order and the checkpoint is the unmodified remainder of the reader (ORDER-PRESERVING)."
-	r.notdec = []string{"equality after a round trip for all values (observation O1: the empty proof list does not round-trip through Marshal/Unmarshal, which these rules cannot see)", "behaviour of bufio.ReadLine on lines longer than its buffer"}
+	r.expl = "Round-trip equality of runtime values is not a static target. Decides only: writer (cmd/feedbastion bastionClient.Update, Proof.Marshal) and reader (bastion.parseBody, Proof.Unmarshal) use the same base64 encoding object, the same line terminator, and the writer's size line carries the prefix the reader requires (CODEC-AGREEMENT); every error return of parseBody hands back nothing else, no nil-error return happens before the blank separator was consumed, Unmarshal assigns its receiver only on success (REFUSAL-IS-TOTAL); protocol integers reachable from the endpoint are parsed by a whole-string parser, the fmt.Sscan family is disallowed (STRICT-INTEGER); proof elements are appended one per decoded line in read order and the checkpoint is the unmodified remainder of the reader (ORDER-PRESERVING); no refusing path of Proof.Unmarshal has conditions that are all decided true on a string template Proof.Marshal returns for zero, one or two hashes (FRAMING-AGREEMENT; reported the empty list not reading back, F7, repaired)."
+	r.notdec = []string{"equality of the values after a round trip (only framing and constants are decided)", "behaviour of bufio.ReadLine on lines longer than its buffer"}
 	r.trusted = append(tbCommon, "encoding/base64, bufio, strconv")
 	ruleCodecAgreement(w, r, "C11.a")
 	ruleParseBodyTotal(w, r, "C11.b", "C11.d")
@@ -214,6 +214,7 @@ func propC11(w *World, r *Run) {
 	ruleCapsAndTimeouts(w, r, "C11.f", "C11.f")
 	ruleServeHTTP(w, r, "C11.g", "C11.g", "C11.g")
 	ruleEndpointHygiene(w, r, "C11.g")
+	ruleProofFraming(w, r, "C11.h")
 }
 
 func init() {
